@@ -332,10 +332,15 @@ struct TestHandlePolicy {
   static int64_t Release(int64_t* v) { int64_t t = *v; *v = -1; return t; }
   static constexpr std::uint64_t HandleType() { return TypeTag; }
 };
+// a policy whose type tag is narrower than 64 bits (the library's own policies use uint64)
+template <class TagT, TagT TypeTag>
+struct NarrowTagHandlePolicy : TestHandlePolicy<TypeTag> {
+  static constexpr TagT HandleType() { return TypeTag; }
+};
 template <class P>
 struct Br<nop::Handle<P>> {
   using T = nop::Handle<P>;
-  static Sch sch() { Sch s = Sch::Of(K::Hnd); s.n = P::HandleType(); s.name = name(); return s; }
+  static Sch sch() { Sch s = Sch::Of(K::Hnd); s.n = P::HandleType(); s.w = (int)sizeof(decltype(P::HandleType())); s.name = name(); return s; }
   static std::string name() { return "Handle<" + std::to_string(P::HandleType()) + ">"; }
   static void to(const T& x, Val& v) { v = Val::U((uint64_t)(int64_t)x.get()); }
   static void from(const Val& v, T& x) { x = T{(int64_t)v.u}; }
